@@ -91,8 +91,8 @@ def run(ctx):
                 if res["classes"] >= 2:
                     tot["nontrivial"] += 1
                 for kind, what in res["problems"]:
-                    ops = "+".join(sorted(set(op[0] for a in p["actors"] + p.get("templates", []) for op in a) - {"rd", "wr", "set", "logv", "assert"}))
-                    key = "C40 %s ops=%s" % (kind, ops)
+                    ops = mcprogs.features(p)
+                    key = "C40 %s uses=%s" % (kind, ops)
                     violations.setdefault(key, common.Violation(key, what + " -- program: " + synccheck.compact(p), dict(program=p, kind=kind)))
         if len(samples) < 4 and jobs:
             samples.append(dict(bound=name, program=synccheck.compact(jobs[0][1]), classes=jobs[0][6]["nclasses"], executions_without_reduction=jobs[0][6]["nexec"]))
